@@ -11,12 +11,17 @@ def serve(arg):
     variant = arg.get("variant", 0)
     pub = periodictable.elements
     # how the neutron data of this interpreter was first touched
-    if variant == 1:
-        nsf.init(pub)                          # explicit init
-    elif variant == 2:
-        _ = pub.Fe[56].nuclear_spin            # through the other property of the same loader
-    elif variant == 3:
-        _ = pub.Fe.ion[2].neutron              # through an ion
+    try:
+        if variant == 1:
+            nsf.init(pub)                          # explicit init
+        elif variant == 2:
+            _ = pub.Fe[56].nuclear_spin            # through the other property of the same loader
+        elif variant == 3:
+            _ = pub.Fe.ion[2].neutron              # through an ion
+    except Exception as e:
+        # a tabulated value that cannot be read as the first thing an interpreter does is a value not served
+        return [{"ev": "firsttouch", "id": "firsttouch:%d" % variant, "variant": variant,
+                 "exc": "%s: %s" % (type(e).__name__, str(e)[:200])}]
     def private():
         t = core.PeriodicTable("T1")
         mass.init(t)
